@@ -576,7 +576,7 @@ class ParametricSweepFactory:
                     base_created = []
                     if hasattr(cls._element, "get_created_keys"):
                         base_created = list(cls._element.get_created_keys())
-                    return created + base_created
+                    return created + [k for k in base_created if k not in created]
 
                 def _process_logic(self, data, **kwargs):  # type: ignore[override]
                     sequences, created = _materialize_sequences(
@@ -687,7 +687,7 @@ class ParametricSweepFactory:
                 base_created = []
                 if hasattr(cls._element, "get_created_keys"):
                     base_created = list(cls._element.get_created_keys())
-                return created + base_created
+                return created + [k for k in base_created if k not in created]
 
             def _process_logic(self, data, **kwargs):  # type: ignore[override]
                 sequences, created = _materialize_sequences(
